@@ -1,7 +1,9 @@
 (* C13 driver.  Fields (TAB separated):
      deps   WORLD NAME VERSION TOPO(0/1)      -> ok TAB entries | err TAB kind
      depsp  ... same with the pinned layer sort (D15)
-     topo   WORLD NAME VERSION                -> ok TAB graph TAB components TAB layers TAB partition_ok
+     depsn  ... same with the pinned second walk (D16: one version per name, depths per name)
+     topo   WORLD NAME VERSION                -> ok TAB graph TAB components TAB layers TAB partition_ok TAB cycle check
+     topon  ... same with the pinned second walk (D16)
      uses   WORLD QUERIES                     -> one result per query, joined by '|':  ok=consumers / err=kind
      usesp  ... same with the pinned pvsort (D2)
    WORLD    = product '|' product ...     product = name ',' version ',' edge ';' edge ...
@@ -45,15 +47,16 @@ let enc_consumers l =
 
 let handle (f : string array) : string =
   match f.(0) with
-  | "deps" | "depsp" ->
+  | "deps" | "depsp" | "depsn" ->
     let w = dec_world f.(1) in
     let top = ((dec_str f.(2), Some (dec_str f.(3))), true) in
     let topo = bool_of_field f.(4) in
-    show_entries ((if f.(0) = "deps" then dependent_products else dependent_products_pinned) (fuel_for w) w top topo)
-  | "topo" ->
+    show_entries ((match f.(0) with "deps" -> dependent_products | "depsp" -> dependent_products_pinned
+                                   | _ -> dependent_products_byname_pinned) (fuel_for w) w top topo)
+  | "topo" | "topon" ->
     let w = dec_world f.(1) in
     let top = ((dec_str f.(2), Some (dec_str f.(3))), true) in
-    (match topo_graph (fuel_for w) w top with
+    (match (if f.(0) = "topo" then topo_graph else topo_graph_byname_pinned) (fuel_for w) w top with
      | Err k -> "err\t" ^ err_name k
      | Ok g ->
        let gs = String.concat ";" (List.map (fun (n, ss) -> enc_node n ^ ">" ^ enc_nodes "," ss) g) in
